@@ -21,6 +21,7 @@ import (
 	"strings"
 	"time"
 
+	"verif/harness/conc"
 	"verif/harness/engine"
 	"verif/harness/sim"
 )
@@ -31,12 +32,16 @@ type propSpec struct {
 	QuickRuns int64
 	Title     string
 	Rule      string
-	Shards    bool // run in child processes (concurrent goroutine mode)
+	Shards    bool  // run in child processes (concurrent goroutine mode)
+	Conc      int64 // world Y (concurrent hands over the copy with scheduling points): groups in the quick tier, 0 = not attached
 	Assume    []string
 	Probes    []string
 }
 
 var props = map[string]*propSpec{}
+
+// what the concurrent-hands part of the current check did (for the evidence file)
+var concInfo map[string]interface{}
 
 func regE(id, title string, quick int64) {
 	props[id] = &propSpec{World: func() sim.World { return engine.World{} }, WorldName: "E", QuickRuns: quick, Title: title, Shards: true,
@@ -81,6 +86,9 @@ func init() {
 	regE("C16", "published pots partition the chips", 32000)
 	props["C16"].World = func() sim.World { return engine.Mixed{} }
 	props["C16"].WorldName = "E+P"
+	for id, n := range map[string]int64{"C01": 1600, "C02": 1200, "C07": 2400, "C10": 1600, "C14": 1600, "C15": 640, "C16": 1200} {
+		props[id].Conc = n
+	}
 	registerOther()
 	for id, w := range wanted {
 		if props[id] != nil {
@@ -164,13 +172,20 @@ func cmdShard(args []string) int {
 	stride := fs.Int64("stride", 1, "")
 	workers := fs.Int("workers", 1, "")
 	outFile := fs.String("out", "", "write the aggregate here (stdout may be polluted by the code under test)")
+	wname := fs.String("world", "", "Y = concurrent hands")
 	fs.Parse(args)
 	spec := props[*p]
 	if spec == nil {
 		return 2
 	}
-	b := &sim.Batch{World: spec.World(), Opt: sim.Options{Property: *p, Tier: *tier, Known: loadKnown(), Seed: *seed},
-		Tag: sim.HashString(*p), Runs: *runs, Budget: time.Duration(*budget * float64(time.Second)), Workers: *workers, First: *first, Stride: *stride}
+	world := spec.World()
+	tag := sim.HashString(*p)
+	if *wname == "Y" {
+		world = conc.World{}
+		tag = sim.Mix(tag, sim.HashString("Y"))
+	}
+	b := &sim.Batch{World: world, Opt: sim.Options{Property: *p, Tier: *tier, Known: loadKnown(), Seed: *seed},
+		Tag: tag, Runs: *runs, Budget: time.Duration(*budget * float64(time.Second)), Workers: *workers, First: *first, Stride: *stride}
 	agg := b.Run()
 	agg.Seal()
 	if *outFile != "" {
@@ -189,6 +204,33 @@ func cmdShard(args []string) int {
 
 func runSharded(p string, tier string, seed uint64, runs int64, budget float64, procs int) (*sim.Agg, error) {
 	exe, _ := os.Executable()
+	return runShardedExe(exe, "", p, tier, seed, runs, budget, procs)
+}
+
+// yBin is the binary built over the generated copy with scheduling points
+// ("" when it is not there).
+func yBin() string {
+	b := os.Getenv("VERIF_YBIN")
+	if b == "" {
+		return ""
+	}
+	if _, err := os.Stat(b); err != nil {
+		return ""
+	}
+	return b
+}
+
+func exeFor(world string) string {
+	if world == "Y" {
+		if b := yBin(); b != "" {
+			return b
+		}
+	}
+	exe, _ := os.Executable()
+	return exe
+}
+
+func runShardedExe(exe, wname, p string, tier string, seed uint64, runs int64, budget float64, procs int) (*sim.Agg, error) {
 	type res struct {
 		agg *sim.Agg
 		err error
@@ -211,7 +253,7 @@ func runSharded(p string, tier string, seed uint64, runs int64, budget float64, 
 			tmp.Close()
 			defer os.Remove(tmp.Name())
 			cmd := exec.CommandContext(ctx, exe, "shard", "-p", p, "-tier", tier, "-seed", fmt.Sprint(seed), "-runs", fmt.Sprint(runs),
-				"-budget", fmt.Sprint(budget), "-first", fmt.Sprint(k), "-stride", fmt.Sprint(procs), "-workers", "1", "-out", tmp.Name())
+				"-budget", fmt.Sprint(budget), "-first", fmt.Sprint(k), "-stride", fmt.Sprint(procs), "-workers", "1", "-out", tmp.Name(), "-world", wname)
 			cmd.Env = append(os.Environ(), "GOMAXPROCS=2")
 			cmd.Stderr = os.Stderr
 			cmd.Stdout = nil // the code under test may print (the regulator does on callback errors)
@@ -305,6 +347,76 @@ func cmdCheck(args []string) int {
 		fmt.Fprintln(os.Stderr, "HARNESS-FAULT:", strings.Join(agg.Faults, "; "))
 		return 2
 	}
+	// world Y: the same hands played by concurrent goroutines
+	var yinfo map[string]interface{}
+	if spec.Conc > 0 {
+		yinfo = map[string]interface{}{"attached": true}
+		if yb := yBin(); yb == "" {
+			why := os.Getenv("VERIF_YBIN_WHY")
+			if why == "" {
+				why = "the binary over the generated copy is not there (VERIF_YBIN)"
+			}
+			yinfo["run"] = false
+			yinfo["reason"] = why
+			fmt.Printf("NOTE: concurrent-hands part (world Y) not run: %s\n", why)
+		} else {
+			yruns, ybudget := spec.Conc, 0.0
+			if runs == 0 {
+				yruns, ybudget = 0, budget/4
+			} else if *runsF > 0 {
+				yruns = *runsF / 10
+			}
+			y0 := time.Now()
+			ya, err := runShardedExe(yb, "Y", *p, *tier, seed, yruns, ybudget, workers)
+			ya.WallS = time.Since(y0).Seconds()
+			if err != nil {
+				fmt.Fprintln(os.Stderr, "HARNESS-FAULT (world Y):", err)
+				return 2
+			}
+			if len(ya.Faults) > 0 {
+				fmt.Fprintln(os.Stderr, "HARNESS-FAULT (world Y):", strings.Join(ya.Faults, "; "))
+				return 2
+			}
+			// determinism sample: the same groups in two further processes
+			var dh [2]string
+			for t := 0; t < 2; t++ {
+				cmd := exec.Command(yb, "dethash", "-p", *p, "-world", "Y", "-runs", "4", "-tier", *tier)
+				cmd.Env = append(os.Environ(), fmt.Sprintf("VERIF_SEED=%d", seed), fmt.Sprintf("GOMAXPROCS=%d", 1+3*t))
+				cmd.Stderr = os.Stderr
+				out, err := cmd.Output()
+				if err != nil {
+					fmt.Fprintln(os.Stderr, "HARNESS-FAULT (world Y): determinism sample:", err)
+					return 2
+				}
+				dh[t] = lastLine(string(out))
+			}
+			if dh[0] != dh[1] || !strings.Contains(dh[0], "hash=") {
+				fmt.Fprintf(os.Stderr, "HARNESS-FAULT (world Y): determinism sample mismatch: %q vs %q\n", dh[0], dh[1])
+				return 2
+			}
+			yinfo["determinism_sample_groups"] = 4
+			yinfo["run"] = true
+			yinfo["wall_s"] = ya.WallS
+			yinfo["groups"] = ya.Counters["probe.conc.groups"]
+			yinfo["hands"] = ya.Counters["probe.conc.hands"]
+			yinfo["switches_inside_engine_calls"] = ya.Counters["fault.goroutine-switch-inside-engine-call"]
+			yinfo["scheduling_points_passed"] = ya.Counters["probe.conc.scheduling-points"]
+			yinfo["groups_with_switches"] = ya.Nontrivial
+			yinfo["rule"] = "one group = 2 or 3 complete world-E hands (own configuration, deck, faults, oracles) run by concurrent goroutines, one at a time, switching at PRNG-chosen statements inside engine calls; every hand is compared with the same hand run alone"
+			fmt.Printf("simcheck: world Y: groups=%d hands=%d switches=%d scheduling-points=%d wall=%.1fs\n", ya.Counters["probe.conc.groups"], ya.Counters["probe.conc.hands"], ya.Counters["fault.goroutine-switch-inside-engine-call"], ya.Counters["probe.conc.scheduling-points"], ya.WallS)
+			// fold into the aggregate: violations, fault counters; the member
+			// hands' own counters stay out of the world-E numbers
+			for k, v := range ya.Viol {
+				agg.Viol[k] = v
+			}
+			for _, k := range []string{"fault.goroutine-switch-inside-engine-call", "fault.switch-because-blocked-on-lock", "probe.conc.groups", "probe.conc.hands", "probe.conc.deadlock", "probe.conc.skipped-after-deadlock", "probe.conc.policy-focus-function", "probe.conc.policy-quantum"} {
+				if v := ya.Counters[k]; v > 0 {
+					agg.Counters[k] += v
+				}
+			}
+		}
+	}
+	concInfo = yinfo
 	// determinism sample: re-run a few sub-seeds and compare event logs
 	detOK, detN := determinismSample(world, opt, *p, 6)
 	if !detOK {
@@ -352,6 +464,9 @@ func cmdCheck(args []string) int {
 		// process-global state) is skipped in favour of the next recorded one.
 		cands := append([]*sim.Case{v.Case}, v.More...)
 		exe, _ := os.Executable()
+		if v.Case != nil {
+			exe = exeFor(v.Case.World)
+		}
 		var min *sim.Case
 		var got *sim.Violation
 		os.MkdirAll(replayDir(), 0o755)
@@ -468,6 +583,23 @@ func cmdReplay(args []string) int {
 		fmt.Fprintln(os.Stderr, "HARNESS-FAULT:", err)
 		return 2
 	}
+	if c.World == "Y" && !conc.Available() {
+		// needs the binary built over the copy with scheduling points
+		yb := yBin()
+		if yb == "" {
+			fmt.Fprintln(os.Stderr, "HARNESS-FAULT: a world-Y replay file needs the binary built over the generated copy (./verif.sh replay builds it)")
+			return 2
+		}
+		cmd := exec.Command(yb, append([]string{"replay"}, args...)...)
+		cmd.Stdout, cmd.Stderr = os.Stdout, os.Stderr
+		if err := cmd.Run(); err != nil {
+			if ee, ok := err.(*exec.ExitError); ok {
+				return ee.ExitCode()
+			}
+			return 2
+		}
+		return 0
+	}
 	w := worldOf(c.World)
 	if w == nil {
 		fmt.Fprintln(os.Stderr, "HARNESS-FAULT: unknown world", c.World)
@@ -500,6 +632,9 @@ func cmdReplay(args []string) int {
 		for _, v := range r.Violations {
 			if v.Property == c.Expect.Property && v.Sig == c.Expect.Signature {
 				same := v.Step == c.Expect.Step && v.Detail == c.Expect.Detail
+				if !same {
+					fmt.Printf("  (recorded: step %d %q; now: step %d %q)\n", c.Expect.Step, c.Expect.Detail, v.Step, v.Detail)
+				}
 				fmt.Printf("REPRODUCED property=%s signature=%q step=%d identical=%v\n", v.Property, v.Sig, v.Step, same)
 				return 1
 			}
@@ -520,6 +655,7 @@ func cmdDetHash(args []string) int {
 	runs := fs.Int64("runs", 200, "")
 	workers := fs.Int("workers", 1, "")
 	tier := fs.String("tier", "quick", "")
+	wname := fs.String("world", "", "Y = concurrent hands")
 	fs.Parse(args)
 	spec := props[*p]
 	if spec == nil {
@@ -527,6 +663,9 @@ func cmdDetHash(args []string) int {
 	}
 	seed := envSeed(20260928)
 	w := spec.World()
+	if *wname == "Y" {
+		w = conc.World{}
+	}
 	opt := sim.Options{Property: *p, Tier: *tier, Known: loadKnown(), Seed: seed, KeepLog: true}
 	hashes := make([]uint64, *runs)
 	ch := make(chan int64, *runs)
@@ -550,6 +689,18 @@ func cmdDetHash(args []string) int {
 				}
 				for _, v := range r.Violations {
 					h = sim.Mix(h, sim.HashString(v.Sig))
+				}
+				if *wname == "Y" {
+					if os.Getenv("VERIF_YDEBUG") != "" {
+						fmt.Fprintf(os.Stderr, "group %d: points=%d accepted=%d steps=%d vio=%d fault=%q\n", i, r.Counters["probe.conc.scheduling-points"], r.Counters["op.action-offered.accepted"], r.Steps, len(r.Violations), r.Fault)
+						if r.Case != nil {
+							fmt.Fprintf(os.Stderr, "  cfg=%s first=%v\n", r.Case.Config, r.Case.Steps[:min(4, len(r.Case.Steps))])
+						}
+					}
+					h = sim.Mix(h, uint64(r.Counters["probe.conc.scheduling-points"]), uint64(r.Counters["op.action-offered.accepted"]))
+					if r.Fault != "" {
+						h = sim.Mix(h, sim.HashString(r.Fault))
+					}
 				}
 				hashes[i] = h
 			}
@@ -576,6 +727,9 @@ func lastLine(s string) string {
 }
 
 func worldOf(name string) sim.World {
+	if name == "Y" {
+		return conc.World{}
+	}
 	if name == "P" || name == "E" {
 		return engine.Mixed{}
 	}
@@ -612,6 +766,31 @@ func cmdMinimise(args []string) int {
 	}
 	opt := sim.Options{Property: c.Expect.Property, Tier: "thorough", Known: loadKnown(), Seed: c.Seed}
 	orig := len(c.Steps)
+	if c.World == "Y" {
+		// hands that block each other leave their goroutines (and the locks
+		// they hold) behind: such a case can be executed once per process,
+		// so it is kept as recorded
+		r0 := w.Replay(&c, opt)
+		if conc.Poisoned() {
+			for _, v := range r0.Violations {
+				if v.Property == c.Expect.Property && v.Sig == c.Expect.Signature {
+					c.Expect = &sim.Expect{Property: v.Property, Signature: v.Sig, Detail: v.Detail, Step: v.Step}
+					c.Note = fmt.Sprintf("not minimised (the hands block each other; one execution per process); original sub-seed %d of VERIF_SEED=%d", c.SubSeed, c.Seed)
+					if r0.Case != nil && r0.Case.Note != "" {
+						c.Note += "; " + r0.Case.Note
+					}
+					if err := writeCase(args[1], &c); err != nil {
+						fmt.Println("write:", err)
+						return 2
+					}
+					fmt.Println("kept as recorded:", orig, "steps")
+					return 0
+				}
+			}
+			fmt.Println("the violation does not occur when the case is replayed in a clean process")
+			return 3
+		}
+	}
 	min, tries := sim.Minimise(w, &c, c.Expect.Property, c.Expect.Signature, opt, 60*time.Second)
 	rr := w.Replay(min, opt)
 	for _, v := range rr.Violations {
@@ -630,4 +809,11 @@ func cmdMinimise(args []string) int {
 	}
 	fmt.Println("the violation does not occur when the case is replayed in a clean process")
 	return 3
+}
+
+func min(a, b int) int {
+	if a < b {
+		return a
+	}
+	return b
 }
